@@ -96,6 +96,8 @@ def judge(case, impl_res, ans):
                         'the spike-count-weighted mean of its templates on the dominant template\'s channels'))
             return 'SPEC: cluster waveforms shape'
     # public accessor with unwhitening
+    if 'err' in ans.get('second', {}):
+        return 'MACHINERY: driver error in the second query: %s' % ans['second']['err']
     m2 = ans.get('second', {}).get('ok')
     if m2 is not None:
         for (c, got), mm in zip(ok['means'].items(), m2['means']):
@@ -117,6 +119,7 @@ def nontrivial(case):
 
 
 def tally(rep, case, impl_res, ans):
+    rep.count('template_scaling:%s' % (case['spec'].get('template_scaling') or 1))
     spec = case['spec']
     rep.count('curated:%s' % (spec.get('spike_clusters') is not None and spec['spike_clusters'] != spec['spike_templates']))
     rep.count('shanks:%s' % (spec.get('channel_shanks') is not None))
